@@ -542,6 +542,25 @@ def _binders(repo, rep, rule="R04.6", handlers=True):
                       "scope (nested binders see outer parameters)" % b,
                       construct="empty-scope:" + b, where=L.where(m),
                       detail="self.scopes.append(%s)" % arg)
+        if b == "Lambda" and pushes:
+            # default values belong to the enclosing scope: they are visited
+            # before the lambda's scope is opened (in the new scope the
+            # parameter of the same name -- lambda x=x: ... -- would hide the
+            # template variable)
+            push_line = min(p.lineno for p in pushes)
+            early = [n for n in ast.walk(m.node) if isinstance(n, ast.Assign)
+                     and "defaults" in src(n.targets[0]) and
+                     "self.visit(" in src(n.value) and n.lineno < push_line]
+            names = {src(n.targets[0]).split(".")[-1] for n in early}
+            generic = [n for n in ast.walk(m.node) if isinstance(n, ast.Call)
+                       and src(n.func).endswith("generic_visit")]
+            rep.check({"defaults", "kw_defaults"} <= names and not generic,
+                      rule, m.qualname, "a lambda's default values are "
+                      "rewritten in the enclosing scope, before its "
+                      "parameters are bound (and not again inside)",
+                      construct="lambda-defaults-outside", where=L.where(m),
+                      detail="visited early: %s, generic_visit calls: %d" % (
+                          sorted(names), len(generic)))
         pops = [n for n in ast.walk(m.node) if isinstance(n, ast.Call)
                 and src(n.func) == "self.scopes.pop"]
         fin = [n for n in ast.walk(m.node) if isinstance(n, ast.Try)
